@@ -15,7 +15,7 @@ LEVEL_TEXT = ("Static structural proof of necessary conditions: (R10.1) every in
               "validator's constructor; (R10.3) the temporal rules are registered as TEMPORAL_TAG_ERROR and reachable "
               "from BaseInput.validate. The transition semantics over histories, equal-onset merging and Delay "
               "shifting are NOT decided.")
-LEVEL_EXTRA = 'Added after the seeded evaluation: (R10.4) every Delay-shifted group is appended under an index computed afresh for that group; (R10.5) already-failed rows are skipped by original_index. (R10.6) rows are ordered by onset with a stable sort.'
+LEVEL_EXTRA = 'Added after the seeded evaluation: (R10.4) every Delay-shifted group is appended under an index computed afresh for that group; (R10.5) already-failed rows are skipped by original_index. (R10.6) rows are ordered by onset with a stable sort. (R10.7) an open scope is closed only under an Offset test; (R10.8) a NaN onset leaves the grouping loop before any ordering comparison.'
 
 ROWS = [{"key": "TemporalErrors." + k, "code": "TEMPORAL_TAG_ERROR"} for k in (
     "OFFSET_BEFORE_ONSET", "INSET_BEFORE_ONSET", "ONSET_SAME_DEFS_ONE_ROW", "TEMPORAL_TAG_NO_TIME",
@@ -176,6 +176,58 @@ def run(ctx):
     ctx.floor("R10.3", "temporal keys", n, 10)
     ctx.check(vt in cg.reachable([entry], STRONG_KINDS), "R10.3", entry.qualname, "reach temporal pass", loc(entry, entry.node),
               "validate_temporal_relations is not reachable from BaseInput.validate", desc="BaseInput.validate reaches validate_temporal_relations")
+
+    # ---------------- R10.7: only an Offset closes an open scope
+    ctx.rule("R10.7", "an entry leaves the open-scope table only under a test that the tag is an Offset")
+    from sa.dataflow import ReachingDefs as _RD10, depends_on as _dep10
+    hoo = prog.find_class("OnsetValidator").methods.get("_handle_onset_or_offset")
+    if hoo is None:
+        raise AnalysisError("anchor OnsetValidator._handle_onset_or_offset vanished")
+    ctx.saw(hoo)
+    v7 = view(ctx, hoo)
+    rd7 = _RD10(hoo)
+    closers = []
+    for n_ in v7.cfg.nodes:
+        if n_.kind != "stmt" or n_.ast is None:
+            continue
+        a = n_.ast
+        if isinstance(a, ast.Delete) and any(isinstance(t, ast.Subscript) and norm(t.value).startswith("self._onsets") for t in a.targets):
+            closers.append(n_)
+        elif isinstance(a, (ast.Expr, ast.Assign)) and isinstance(a.value, ast.Call) and isinstance(a.value.func, ast.Attribute) \
+                and a.value.func.attr in ("pop", "popitem", "clear") and norm(a.value.func.value).startswith("self._onsets"):
+            closers.append(n_)
+    ctx.floor("R10.7", "scope-closing statements in _handle_onset_or_offset", len(closers), 1)
+    for n_ in closers:
+        def offset_test(t):
+            return _dep10(rd7, t, t, lambda x: isinstance(x, ast.Attribute) and x.attr == "OFFSET_KEY")
+        g = v7.guard_for(n_, offset_test)
+        ctx.check(g is not None and g[1] is True, "R10.7", hoo.qualname, n_.ast, loc(hoo, n_.ast),
+                  "the open scope is closed on a path that is not conditional on the tag being an Offset: an Inset of an open "
+                  "definition closes it too, so a second Inset or the real Offset is reported as unmatched",
+                  desc="scope closed only under the Offset test")
+
+    # ---------------- R10.8: rows without a time are left out before onsets are compared
+    ctx.rule("R10.8", "in the time-point grouping a NaN onset leaves the iteration before any ordering comparison of the onset")
+    ido = prog.find_function("df_util._indexed_dict_from_onsets")
+    ctx.saw(ido)
+    v8 = view(ctx, ido)
+    loopvars = set()
+    for lp in walk_no_nested(ido.node):
+        if isinstance(lp, ast.For):
+            loopvars |= {x.id for x in ast.walk(lp.target) if isinstance(x, ast.Name)}
+    cmps = [c for c in v8.conds(lambda t: any(isinstance(x, ast.Compare) and isinstance(x.ops[0], (ast.Lt, ast.LtE, ast.Gt, ast.GtE))
+                                              and any(isinstance(y, ast.Name) and y.id in loopvars for y in ast.walk(x)) for x in ast.walk(t)))]
+    ctx.floor("R10.8", "ordering comparisons of the onset in the grouping loop", len(cmps), 1)
+    for c in cmps:
+        def nan_test(t):
+            return any(isinstance(x, ast.Call) and call_name(x) in ("isnan", "isna", "isnull") and x.args
+                       and any(isinstance(y, ast.Name) and y.id in loopvars for y in ast.walk(x.args[0])) for x in ast.walk(t)) or \
+                any(isinstance(x, ast.Compare) and isinstance(x.ops[0], ast.NotEq) and isinstance(x.left, ast.Name)
+                    and x.left.id in loopvars and norm(x.left) == norm(x.comparators[0]) for x in ast.walk(t))
+        g = v8.guard_for(c, nan_test)
+        ctx.check(g is not None and g[1] is False, "R10.8", ido.qualname, c.ast, loc(ido, c.ast),
+                  "a NaN onset reaches the tolerance comparison, which is false for NaN: the row without a time is appended to the "
+                  "current time point, so its Onset/Offset markers act at the last timed row", desc="NaN onsets skipped before the comparison")
 
 
 def delay_split_rule(ctx, rule):
